@@ -34,7 +34,7 @@ def check(w, tier, t0):
     states, trans = r.distinct, r.generated
     d = w.sub("run")
     maxn, maxb = (5, 6) if tier == "quick" else (8, 9)
-    nrand = 1600 if tier == "quick" else 40000
+    nrand = 1600 if tier == "quick" else 300000
     lib.run([vh, "reads-grid", "-maxn", str(maxn), "-maxb", str(maxb), "-out", os.path.join(d, "g.ndjson")], timeout=3000)
     events = lib.read_ndjson(os.path.join(d, "g.ndjson"))
     for e in events:
